@@ -20,7 +20,22 @@ evaluation - a schedule source returning its list - "interleaved" constructs eac
 The whole group runs in a forked child of the driver process: its observation does not depend on what the cases that
 happened to share the driver process left behind, so a replay of the group alone sees the same thing.  Every element's
 observation carries `spelled_us`: the instant of an equal datetime built separately (fresh tzinfo objects) that taskiq
-never sees - the harness compares it with the T it computed on its own when generating (harness self-check)."""
+never sees - the harness compares it with the T it computed on its own when generating (harness self-check).
+
+A time case / group element may carry "sched": the OTHER fields of the schedule, filled the way schedule sources really
+fill them (absent = the constants of the first build: task_name "t", empty labels / args / kwargs, no cron_offset, the
+constructor).  "off": the cron_offset - None, {"kind": "td", "us": n, "as": "timedelta" | "seconds"} (a timedelta, or the
+whole number of seconds a JSON-ish source hands over and the pydantic model turns into one) or {"kind": "zone", "zone":
+name}; "offobj" (group elements with the same number hand over the very same timedelta OBJECT); "cron" (cron AND time
+on one schedule - the cron branch decides, not judged by C14); "name" / "labels" / "args" / "kwargs" / "sid" (schedule_id,
+None = the model's default factory); "how": the construction path - "ctor" (keyword arguments), "validate"
+(ScheduledTask.model_validate / parse_obj of a dict), "assign" (built without the offset, `task.cron_offset = ...`
+afterwards: the model is mutable), "copy" (a model_copy / copy of the constructed task is what gets evaluated), "label"
+(the schedule is a dict of the `schedule` label of a task registered with a real InMemoryBroker and comes back from the real
+LabelScheduleSource.get_schedules(), which copies cron_offset onto every schedule).  A group with "source": "label"
+(build-first only) registers ALL its schedules as labels of one broker and builds them with ONE get_schedules() call.
+"reoff" on an element that re-evaluates an existing task: the offset is re-assigned on that task object first.
+The statement for a schedule with a target time mentions none of these fields."""
 import datetime as dt
 import json
 import os
@@ -150,13 +165,109 @@ def observe(c, t):
     NOW[0] = EP + dt.timedelta(microseconds=c["now"])
     r = run.get_task_delay(t)
     host = {"host_off_us": host_offset_us(c["now"]), "local_now": VDT.now().isoformat()} if c.get("host") else {}
+    if c.get("sched"):
+        host.update(seen(t))
     if r is not None and type(r) is not int:
         return dict(host, delay=repr(r), badtype=True)
     return dict(host, delay=r)
 
 
-def make_task(value):
-    return ScheduledTask(task_name="t", labels={}, args=[], kwargs={}, time=value)
+def offset_value(off, offc=None, key=None):
+    """the cron_offset value a case spells; offc / key: timedelta objects shared inside a group"""
+    if off is None:
+        return None
+    if off["kind"] == "zone":
+        return off["zone"]
+    if off.get("as") == "seconds":      # what a JSON-ish source hands over; the model makes a timedelta of it
+        return off["us"] // 10**6
+    if offc is not None and key is not None:
+        k = (key, off["us"])
+        if k not in offc:
+            offc[k] = dt.timedelta(microseconds=off["us"])
+        return offc[k]
+    return dt.timedelta(microseconds=off["us"])
+
+
+def as_timedelta(off):
+    """an offset assigned to an attribute is not validated by the model: hand over what a caller would (timedelta / str)"""
+    v = offset_value(off)
+    return dt.timedelta(seconds=v) if isinstance(v, int) else v
+
+
+def label_dict(value, sc, offc=None):
+    """one entry of a task's `schedule` label, as the documentation writes them"""
+    d = {"time": value}
+    if sc.get("cron") is not None:
+        d["cron"] = sc["cron"]
+    if "off" in sc and (sc["off"] is not None or sc.get("offkey")):   # offkey: the key is present with value None
+        d["cron_offset"] = offset_value(sc["off"], offc, sc.get("offobj"))
+    for k in ("labels", "args", "kwargs"):
+        if k in sc:
+            d[k] = json.loads(json.dumps(sc[k]))
+    return d
+
+
+def from_label_source(named):
+    """named: [(task_name, [label dict, ...])] -> the ScheduledTasks the real LabelScheduleSource returns for a real
+    broker whose tasks carry these schedule labels, in the order of the labels"""
+    import asyncio
+
+    from taskiq import InMemoryBroker
+    from taskiq.schedule_sources import LabelScheduleSource
+    broker = InMemoryBroker()
+    for name, dicts in named:
+        def fn(*a, **k):
+            return None
+        broker.register_task(fn, task_name=name, schedule=dicts)
+    loop = asyncio.new_event_loop()
+    try:
+        return loop.run_until_complete(LabelScheduleSource(broker).get_schedules())
+    finally:
+        loop.close()
+
+
+def make_task(value, sc=None, offc=None):
+    if not sc:
+        return ScheduledTask(task_name="t", labels={}, args=[], kwargs={}, time=value)
+    how = sc.get("how", "ctor")
+    if how == "label":
+        got = from_label_source([(sc.get("name") or "t", [label_dict(value, sc, offc)])])
+        if len(got) != 1:
+            raise RuntimeError("LabelScheduleSource.get_schedules() returned %d schedules for 1 time label" % len(got))
+        return got[0]
+    kw = dict(task_name=sc.get("name", "t"), labels=json.loads(json.dumps(sc.get("labels", {}))),
+              args=json.loads(json.dumps(sc.get("args", []))), kwargs=json.loads(json.dumps(sc.get("kwargs", {}))), time=value)
+    if sc.get("sid") is not None:
+        kw["schedule_id"] = sc["sid"]
+    if sc.get("cron") is not None:
+        kw["cron"] = sc["cron"]
+    if how == "assign":
+        t = ScheduledTask(**kw)
+        t.cron_offset = as_timedelta(sc.get("off"))
+        return t
+    if "off" in sc and (sc["off"] is not None or sc.get("offkey")):
+        kw["cron_offset"] = offset_value(sc["off"], offc, sc.get("offobj"))
+    if how == "validate":
+        return (getattr(ScheduledTask, "model_validate", None) or ScheduledTask.parse_obj)(kw)
+    t = ScheduledTask(**kw)
+    if how == "copy":
+        cp = getattr(t, "model_copy", None) or t.copy
+        # (the harness reads its zoneinfo zones from pytz's files with ZoneInfo.from_file: such objects refuse to be
+        # pickled / deep-copied by CPython - a property of the harness' zone objects, so those copies stay shallow)
+        return cp(deep=bool(sc.get("deep")) and not isinstance(getattr(value, "tzinfo", None), zoneinfo.ZoneInfo))
+    return t
+
+
+def seen(t):
+    """what the evaluated task carries besides its time - evidence and replay text only"""
+    o = t.cron_offset
+    if o is None:
+        so = "none"
+    elif isinstance(o, dt.timedelta):
+        so = "timedelta:%d" % (o // dt.timedelta(microseconds=1))
+    else:
+        so = "%s:%s" % (type(o).__name__, o)
+    return {"off_seen": so, "cron_seen": t.cron}
 
 
 def run_group(c):
@@ -168,7 +279,15 @@ def run_group(c):
             fresh.append(instant_us(spell(e["T"], e["spell"], {})))
         except Exception:
             fresh.append(None)
-    tzc, objs, tasks, built, out = {}, {}, {}, {}, [None] * len(elems)
+    tzc, objs, tasks, built, out, offc = {}, {}, {}, {}, [None] * len(elems), {}
+
+    def value(e):
+        d = objs.get(e.get("obj")) if e.get("obj") is not None else None
+        if d is None:
+            d = spell(e["T"], e["spell"], tzc)
+            if e.get("obj") is not None:
+                objs[e["obj"]] = d
+        return d.isoformat() if e.get("via") == "iso" else d
 
     def build(k):
         e = elems[k]
@@ -176,25 +295,73 @@ def run_group(c):
             if e.get("task") is not None and e["task"] in tasks:
                 built[k] = tasks[e["task"]]
                 return
-            d = objs.get(e.get("obj")) if e.get("obj") is not None else None
-            if d is None:
-                d = spell(e["T"], e["spell"], tzc)
-                if e.get("obj") is not None:
-                    objs[e["obj"]] = d
-            built[k] = make_task(d.isoformat() if e.get("via") == "iso" else d)
+            built[k] = make_task(value(e), e.get("sched"), offc)
             if e.get("task") is not None:
                 tasks[e["task"]] = built[k]
         except Exception:  # a crash of one element is that element's observation; the rest of the group still runs
             out[k] = {"_crash": traceback.format_exc()[-2000:]}
 
+    def build_from_label_source(order):
+        """every schedule of the group is a label of ONE broker; one get_schedules() call returns them all"""
+        named, first = [], []
+        for k in order:
+            e = elems[k]
+            if e.get("task") is not None and e["task"] in tasks:
+                continue
+            sc = e.get("sched") or {}
+            try:
+                entry = label_dict(value(e), sc, offc)
+            except Exception:
+                out[k] = {"_crash": traceback.format_exc()[-2000:]}
+                continue
+            if e.get("task") is not None:
+                tasks[e["task"]] = k      # placeholder: the element whose schedule it is
+            name = sc.get("name") or "t"
+            for n, dicts, ks in named:
+                if n == name:
+                    break
+            else:
+                dicts, ks = [], []
+                named.append((name, dicts, ks))
+            dicts.append(entry)
+            ks.append(k)
+            first.append(k)
+        try:
+            got = from_label_source([(n, dicts) for n, dicts, _ in named])
+            want = [k for _, _, ks in named for k in ks]
+            if len(got) != len(want):
+                raise RuntimeError("LabelScheduleSource.get_schedules() returned %d schedules for %d time labels" % (
+                    len(got), len(want)))
+            for k, t in zip(want, got):
+                built[k] = t
+        except Exception:
+            for k in first:
+                out[k] = {"_crash": traceback.format_exc()[-2000:]}
+        for key, k in list(tasks.items()):
+            if isinstance(k, int):
+                if k in built:
+                    tasks[key] = built[k]
+                else:
+                    del tasks[key]
+        for k in order:
+            e = elems[k]
+            if k not in built and out[k] is None and e.get("task") in tasks:
+                built[k] = tasks[e["task"]]
+
     if c.get("mode") == "build-first":
-        for k in c.get("build_order") or range(len(elems)):
-            build(k)
+        order = c.get("build_order") or range(len(elems))
+        if c.get("source") == "label":
+            build_from_label_source(list(order))
+        else:
+            for k in order:
+                build(k)
     for k, e in enumerate(elems):
         if k not in built and out[k] is None:
             build(k)
         if out[k] is None:
             try:
+                if "reoff" in e:      # the offset re-assigned on the existing task object before this evaluation
+                    built[k].cron_offset = as_timedelta(e["reoff"])
                 out[k] = observe(e, built[k])
             except Exception:
                 out[k] = {"_crash": traceback.format_exc()[-2000:]}
@@ -230,7 +397,8 @@ def run_case(c, opts):
     NOW[0] = EP + dt.timedelta(microseconds=c["now"])
     set_host(c.get("host"))
     if c["type"] == "time":
-        return dict(observe(c, make_task(spell(c["T"], c["spell"]))), spelled_us=instant_us(spell(c["T"], c["spell"])))
+        return dict(observe(c, make_task(spell(c["T"], c["spell"]), c.get("sched"))),
+                    spelled_us=instant_us(spell(c["T"], c["spell"])))
     if c["type"] == "cron":
         off = c["off"]
         if off is None:
